@@ -13,10 +13,12 @@ package main
 // write reached live storage.
 
 import (
+	"bytes"
 	"crypto/sha256"
 	"encoding/json"
 	"fmt"
 	"io/ioutil"
+	"net/http"
 	"net/http/httptest"
 	"os"
 	"path/filepath"
@@ -531,7 +533,7 @@ func c20(args []string) int {
 	seedMix := NewRng(run.Seed)
 	r := NewRng(seedMix.U64() ^ (seedMix.U64() << 1) ^ 0xC20)
 	log.DefaultLogger.SetLogLevel(log.FATAL)
-	run.Sum.Rule = "configurations: reflect-random values of the real config types (nil/empty/1-2 element slices and maps, nil/non-nil pointers, both TLS shapes of a filter chain, cluster and cluster-manager TLS, tunnel_agent/unknown extension configs, extension JSON documents with 0-4 TLS contexts at the top / as sibling members / in arrays / deep / nested in each other with the key in three spellings and now and then a non-string private_key; member names and key material now and then - or for every occurrence in the response - written with JSON escapes in the text), a distinct marker secret at EVERY v2.TLSConfig the types contain (85% non-empty), and in the opaque positions (interface{} / map[string]interface{} / json.RawMessage: filter, per-filter, health-check, extend-verify, tracing, codec configs, raw resources) now and then a tls_context.private_key / Private_Key / array-nested private_key marker or a direct private_key member of the map; histories: 3-14 real setter calls (SetMosnConfig/SetListenerConfig/SetClusterConfig/SetRemoveClusterConfig/SetHosts/SetRouter/SetExtend/SetClusterManagerTLS) interleaved with transferConfig and file dumps; then EVERY query variant of admin ConfigDump (the full dump six times: the JSON redactor ranges over Go maps) incl. one name per router/cluster/listener, a missing name, an unknown key, two keys and POST. A case (= one endpoint call) is non-trivial when the live config holds at least one marker reachable from that endpoint; distinct by (history shape, endpoint kind, marker classes)."
+	run.Sum.Rule = "configurations: reflect-random values of the real config types (nil/empty/1-2 element slices and maps, nil/non-nil pointers, both TLS shapes of a filter chain, cluster and cluster-manager TLS, tunnel_agent/unknown extension configs, extension JSON documents with 0-4 TLS contexts at the top / as sibling members / in arrays / deep / nested in each other with the key in three spellings and now and then a non-string private_key; member names and key material now and then - or for every occurrence in the response - written with JSON escapes in the text), a distinct marker secret at EVERY v2.TLSConfig the types contain (85% non-empty), and in the opaque positions (interface{} / map[string]interface{} / json.RawMessage: filter, per-filter, health-check, extend-verify, tracing, codec configs, raw resources) now and then a tls_context.private_key / Private_Key / array-nested private_key marker or a direct private_key member of the map; histories: 3-14 real setter calls (SetMosnConfig/SetListenerConfig/SetClusterConfig/SetRemoveClusterConfig/SetHosts/SetRouter/SetExtend/SetClusterManagerTLS) interleaved with transferConfig and file dumps; then EVERY query variant of admin ConfigDump (the full dump six times: the JSON redactor ranges over Go maps) incl. one name per router/cluster/listener, a missing name, an unknown key, two keys and POST. Besides: states with typed TLS contexts only, where the bytes returned by DumpJSON / transferConfig / InheritMosnconfig are retained by reference while the other serializers run and the handler is read in 48-byte pieces with the persist path running in between. A case (= one endpoint call) is non-trivial when the live config holds at least one marker reachable from that endpoint; distinct by (history shape, endpoint kind, marker classes)."
 	placeholder := configmanager.VerifPlaceholder()
 	tmpRoot := filepath.Join(run.Out, "cfgdir")
 	os.MkdirAll(tmpRoot, 0o755)
@@ -855,6 +857,33 @@ func c20(args []string) int {
 			newShard()
 		}
 	}
+	// ---- the bytes a dump API hands out, RETAINED BY REFERENCE while the other serializers run: typed TLS contexts only (no
+	// private_key in any blob, so the JSON-level pass has nothing to change), then the persisted-form serializers, the
+	// hand-over, the file dump, further dumps; after each the retained slices must still be what they were at return time
+	// and hold no planted secret.  And the handler itself with a reader that takes the response in small pieces while the
+	// persist path runs in between.
+	for h := 0; h < run.N(10, 120); h++ {
+		configmanager.Reset()
+		f := &filler{r: r, maxDepth: 5, tmp: tmpRoot}
+		var ops []string
+		for i, n := 0, 1+r.Intn(3); i < n; i++ {
+			l := v2.Listener{}
+			f.fill(reflect.ValueOf(&l).Elem(), 2, "Listener")
+			l.Name = fmt.Sprintf("l%d", i)
+			if len(l.FilterChains) == 0 {
+				l.FilterChains = []v2.FilterChain{{}}
+			}
+			l.FilterChains[0].TLSContexts = []v2.TLSConfig{{Status: true, PrivateKey: f.newMarker("Listener.FilterChains[].TLSContexts[].PrivateKey")}}
+			configmanager.SetListenerConfig(l)
+			ops = append(ops, "SetListenerConfig")
+		}
+		c := v2.Cluster{Name: "c0"}
+		c.TLS = v2.TLSConfig{Status: true, PrivateKey: f.newMarker("Cluster.TLS.PrivateKey")}
+		configmanager.SetClusterConfig(c)
+		configmanager.SetClusterManagerTLS(v2.TLSConfig{Status: true, PrivateKey: f.newMarker("ClusterManagerTLS.PrivateKey")})
+		ops = append(ops, "SetClusterConfig", "SetClusterManagerTLS")
+		aliasCheck(run, f.markers, ops)
+	}
 	// ---- extension documents on their own: several extensions, only the full dump (the only endpoint that prints them)
 	for h := 0; h < run.N(60, 800); h++ {
 		configmanager.Reset()
@@ -1006,4 +1035,140 @@ func sortNamed(x interface{}) interface{} {
 		return t
 	}
 	return x
+}
+
+// ---------------------------------------------------------------------------------------------------------------
+// retained dump bytes
+
+type slowWriter struct {
+	hdr     http.Header
+	code    int
+	got     bytes.Buffer
+	writes  int
+	between func()
+}
+
+func (w *slowWriter) Header() http.Header { return w.hdr }
+func (w *slowWriter) WriteHeader(c int)   { w.code = c }
+
+// Write takes p in pieces of 48 bytes, as a slow reader makes the server do; after the first piece the persist path runs.
+// p must stay what it was for the whole call.
+func (w *slowWriter) Write(p []byte) (int, error) {
+	for off := 0; off < len(p); off += 48 {
+		end := off + 48
+		if end > len(p) {
+			end = len(p)
+		}
+		w.got.Write(p[off:end])
+		if w.writes == 0 && w.between != nil {
+			w.between()
+		}
+		w.writes++
+	}
+	return len(p), nil
+}
+
+func aliasCheck(run *Run, markers []marker, ops []string) {
+	leaks := func(b []byte) []string {
+		var out []string
+		text := string(b)
+		dec := decodedStrings(text)
+		for _, m := range markers {
+			if strings.Contains(text, m.Secret) || strings.Contains(dec, m.Secret) {
+				out = append(out, m.Class)
+			}
+		}
+		return out
+	}
+	type retained struct {
+		what    string
+		b, snap []byte
+		secret  bool // unredacted by design (persisted form): only stability is required
+	}
+	var kept []*retained
+	keep := func(what string, b []byte, secret bool) {
+		k := &retained{what, b, append([]byte(nil), b...), secret}
+		kept = append(kept, k)
+		if !secret {
+			for _, c := range leaks(k.snap) {
+				run.Fail("leak:"+what+":"+c, what+" returns the inline private key placed at "+c, map[string]interface{}{"ops": ops})
+			}
+		}
+	}
+	reported := map[string]bool{}
+	recheck := func(after string) {
+		for _, k := range kept {
+			if bytes.Equal(k.b, k.snap) || reported[k.what] {
+				continue
+			}
+			reported[k.what] = true
+			at := 0
+			for at < len(k.b) && k.b[at] == k.snap[at] {
+				at++
+			}
+			replay := map[string]interface{}{"ops": ops, "retained": k.what, "changed_after": after, "first_changed_byte": at, "length": len(k.b)}
+			run.Fail("dump-bytes-alias-recycled-buffer:"+k.what, fmt.Sprintf("the bytes %s returned (retained by reference, %d bytes) changed from byte %d on after %s ran", k.what, len(k.b), at, after), replay)
+			if !k.secret {
+				for _, c := range leaks(k.b) {
+					run.Fail("private-key-leaked:dump-bytes-changed-after-return:"+k.what, fmt.Sprintf("the bytes %s returned hold the inline private key placed at %s after %s ran (they did not when they were returned)", k.what, c, after), replay)
+					break
+				}
+			}
+		}
+	}
+	b, err := configmanager.DumpJSON()
+	if err != nil {
+		return
+	}
+	keep("DumpJSON", b, false)
+	steps := []struct {
+		name string
+		fn   func()
+	}{
+		{"transferConfig", func() {
+			if d, err := configmanager.VerifTransferConfig(); err == nil {
+				keep("transferConfig", d, true)
+			}
+		}},
+		{"InheritMosnconfig", func() {
+			if d, err := configmanager.InheritMosnconfig(); err == nil {
+				keep("InheritMosnconfig", d, true)
+			}
+		}},
+		{"DumpConfig", func() { configmanager.VerifForceDump() }},
+		{"DumpJSON", func() {
+			if d, err := configmanager.DumpJSON(); err == nil {
+				keep("DumpJSON-second", d, false)
+			}
+		}},
+		{"config_dump?mosnconfig", func() { adminGet("GET", "?mosnconfig") }},
+		{"config_dump?allclusters", func() { adminGet("GET", "?allclusters") }},
+		{"config_dump", func() { adminGet("GET", "") }},
+		{"transferConfig", func() { configmanager.VerifTransferConfig() }},
+	}
+	for _, st := range steps {
+		st.fn()
+		recheck(st.name)
+	}
+	run.Count(fmt.Sprintf("alias|%v", ops), len(markers) > 0, "endpoint:retained-bytes")
+	// the handler with a slow reader: the reference response first, then the same request answered piecewise with the persist
+	// tick (DumpConfig) and the hand-over serialization running after the first piece
+	_, ref := adminGet("GET", "")
+	for _, tick := range []struct {
+		name string
+		fn   func()
+	}{{"DumpConfig", configmanager.VerifForceDump}, {"InheritMosnconfig", func() { configmanager.InheritMosnconfig() }}} {
+		w := &slowWriter{hdr: http.Header{}, between: tick.fn}
+		admin.ConfigDump(w, httptest.NewRequest("GET", "http://127.0.0.1/api/v1/config_dump", nil))
+		got := w.got.String()
+		replay := map[string]interface{}{"ops": ops, "reader": "48-byte pieces", "between_pieces": tick.name}
+		for _, c := range leaks(w.got.Bytes()) {
+			run.Fail("private-key-leaked:slow-reader:full", fmt.Sprintf("config_dump read in small pieces while %s runs returns the inline private key placed at %s", tick.name, c), replay)
+			break
+		}
+		if canonJSON([]byte(got)) != canonJSON([]byte(ref)) {
+			run.Fail("dump-bytes-alias-recycled-buffer:handler-full", fmt.Sprintf("config_dump read in small pieces while %s runs is not the response a fast reader gets", tick.name), replay)
+		}
+	}
+	run.Count(fmt.Sprintf("slow|%v", ops), len(markers) > 0, "endpoint:slow-reader")
 }
